@@ -2,6 +2,7 @@ import PsaDhcp.Model.Verdict
 import PsaDhcp.Model.System
 import PsaDhcp.Spec.ServerSpec
 import PsaDhcp.Spec.Inet
+import PsaDhcp.Spec.ReplySpec
 import PsaDhcp.Proofs.Decision
 /-
 C06 — Replies are correlated with and addressed to the requesting client.
@@ -9,13 +10,7 @@ C06 — Replies are correlated with and addressed to the requesting client.
 namespace PsaDhcp.Props.C06
 open PsaDhcp PsaDhcp.Spec
 
-/-- Configurations whose options are representable (what `leaseopts` validates). -/
-structure CfgWf (c : SrvCfg) : Prop where
-  mask : c.mask.length = 4
-  dns : c.dns.length ≤ 63
-  ntp : c.ntp.length ≤ 63
-  domain : c.domain.length ≤ 255
-  ov : ∀ o ∈ c.overrides, o.dns.length ≤ 63 ∧ o.ntp.length ≤ 63 ∧ o.hostname.length ≤ 255
+-- `CfgWf` (configurations whose options are representable) lives in `Spec/ReplySpec.lean`.
 
 /-- Every OFFER / ACK frame, decoded by the stack's own decoders, is a BOOTREPLY echoing the
 transaction id, the flags and the client hardware address, naming the server as server identifier,
